@@ -58,7 +58,7 @@ Judge(cur, e) ==
          \cup If(\A i \in DOMAIN e.log :
                     (CC(u)!ParsedAt(e.log) > 0 /\ i > CC(u)!ParsedAt(e.log) /\ CC(u)!IsHook(e.log[i].h)
                      /\ CC(u)!KindAt(e.log, i) \in {"delayed", "raw"})
-                       => \A g \in Given(e.c) : CC(u)!HK(e.log[i].h).n # g[1], "ExplicitNoDefault")
+                       => \A g \in Given(e.c) : g[1] \in dels \/ CC(u)!HK(e.log[i].h).n # g[1], "ExplicitNoDefault")
          \cup If(\A i \in DOMAIN e.log : (CC(u)!IsHook(e.log[i].h) /\ CC(u)!KindAt(e.log, i) = "pre")
                                             => CC(u)!HK(e.log[i].h).par \notin cur.pre, "PreOnce")
 
